@@ -85,4 +85,11 @@ P['C17'] = dict(
     find_bad=find_bad_c17,
 )
 
+P['C04'] = dict(
+    rule='every distinct message type of the shipped dialects and 11 user-defined shapes: random/boundary values (NaN payloads incl. signalling NaNs, -0, min/max, strings with NUL and over-length) encoded and decoded back in v1 and v2; decoding of payloads of every length 0..256, 300, 600 (all lengths for 12 sampled types in quick, boundary lengths around the base and extended sizes for all; thorough: all lengths for all types) filled with 00 / FF / random; Read on a payload that is a prefix of a larger sentinel-filled backing array (cap > len), backing array compared afterwards. Non-trivial: the model produced bytes / a decoded value.',
+    assumptions=['reflect is modelled by the struct description; Go slices by (backing array, len)'],
+    mismatch_meaning='encode/decode result (or the caller\'s backing array after Read) differs from the model proved to round-trip, to be truncation-invariant, panic-free and to leave the caller\'s buffer alone: concrete message, version and payload',
+    find_bad=find_bad_struct,
+)
+
 KNOWN_MATCH = {}
